@@ -2,6 +2,7 @@ package processor
 
 import (
 	"fmt"
+	"math"
 	"strings"
 	"time"
 
@@ -294,6 +295,11 @@ func dumpCdrFile(ueid string, records []*cdrType.CHFRecord) error {
 		cdrBytes, err := asn.BerMarshalWithParams(&record, "explicit,choice")
 		if err != nil {
 			logger.ChargingdataPostLog.Errorln(err)
+			return err
+		}
+		if len(cdrBytes) > math.MaxUint16 {
+			// the 16-bit CDR length field cannot describe a longer record
+			return fmt.Errorf("CDR of %d octets exceeds the record limit of %d octets", len(cdrBytes), math.MaxUint16)
 		}
 
 		var cdrHdr cdrFile.CdrHeader
